@@ -21,6 +21,7 @@ EXPLANATION = (
     "(selected, else all); (R4) cached name maps/metadata of a wrapper are dropped when a derivation changes what they read; (R5) defaults and bound "
     "values of the inner graph surface through the wrapper in the order bound-then-default, under the resolved original name. R5 also requires that a value the resolver classifies BOUND (shared, never copied) is read from a bind() table under the key that was just tested, so that signature defaults surfaced by a wrapper stay in the DEFAULT class (deep-copied per run exactly as in the flat graph). R5 also requires that 'optional because some consumer has a default' quantifies over every consuming node (a wrapper counts inner bound values as defaults, so the first consumer does not decide). R2 also requires that the wrapper's own translators (GraphNode.map_inputs_to_params, map_outputs_from_original, ...) reach the batch-aware resolver."
     " R5 also requires that a binding made on the enclosing graph itself overrides the one made inside the nested graph (as the later of two bind() calls wins on the flat graph)."
+    " R2 also requires that an input of a nested graph node is withheld only on the resolver's own DEFAULT classification; R5 that the readiness test accepts exactly the resolver's sources."
 )
 NOT_DECIDED = "Equivalence with the inlined graph over all convex cuts — a differential statement about computed values and input specifications — is not decided; only the boundary clauses above are."
 
